@@ -439,11 +439,14 @@ Section WithOrd.
         end
     | HWake tid =>
         let t := tasks s tid in
-        match t_status t, t_queue t with
-        | TWoken, Some q =>
+        match t_status t with
+        | TWoken =>
             if t_cancel t then finish tid false s         (* CancelledError caught: break *)
-            else monitor tid q (upd_task tid (with_status TRunning) s)
-        | _, _ => set_err EBadHandle s
+            else match t_queue t with
+                 | Some q => monitor tid q (upd_task tid (with_status TRunning) s)
+                 | None => set_err EBadHandle s
+                 end
+        | _ => set_err EBadHandle s
         end
     | HDoneCb tid =>                                       (* _deletor's do_delete *)
         let k := t_key (tasks s tid) in
